@@ -195,6 +195,9 @@ pub fn run(tier: Tier) -> Report {
                 push(g);
             }
             crate::fam::with_defs(km, k1, k2, &mut |g| push(g));
+            for n in 2..=5 {
+                crate::fam::def_dags(n, &mut |g| push(g));
+            }
             crate::fam::single_call(crate::fam::v0(), k, &mut |g| push(g));
         },
         || Acc { samples: Some(Samples::new(4)), ..Default::default() },
@@ -218,7 +221,7 @@ pub fn run(tier: Tier) -> Report {
     rep.cov(
         "rule",
         J::s(format!(
-            "exhaustive: every tree with <= {k} nodes over leaves {{a, b, ab, a \"d1\", <U>, {{{{{{ c1 }}}}}}}} and operators seq | || [] ... word-juxtaposition descr(\"d2\"), arity 2..3, as `cmd E`; plus `cmd E; <X> = B1; <Y> = B2` (E<= {km} nodes, B1 <= {k1}, B2 <= {k2}, both definition orders); plus the fixed corpus; x 4 shells. Per accepted grammar the product (reference position sets x complgen states) is explored completely for the raw and the minimized automaton; within-word automata are compared through canonical minimal forms. states/transitions = product states/edges summed over all runs."
+            "exhaustive: every tree with <= {k} nodes over leaves {{a, b, ab, a \"d1\", <U>, {{{{{{ c1 }}}}}}}} and operators seq | || [] ... word-juxtaposition descr(\"d2\"), arity 2..3, as `cmd E`; plus `cmd E; <X> = B1; <Y> = B2` (E<= {km} nodes, B1 <= {k1}, B2 <= {k2}, both definition orders); plus every definition DAG on 2..5 definitions (every forward-edge subset with all definitions reachable, 3 statement orders); plus the fixed corpus; x 4 shells. Per accepted grammar the product (reference position sets x complgen states) is explored completely for the raw and the minimized automaton; within-word automata are compared through canonical minimal forms. states/transitions = product states/edges summed over all runs."
         )),
     );
     rep.cov("exhaustive", J::Bool(true));
